@@ -25,7 +25,7 @@ CLASS_FLAGS = [
     {'repr': False}, {'init': False}, {'frozen': True, 'slots': True}, {'order': True, 'frozen': True},
     {'match_args': False}, {'weakref_slot': True, 'slots': True},
 ]
-FORMS = ('decorator', 'call', 'make_dataclass')
+FORMS = ('decorator', 'call', 'make_dataclass', 'make_dataclass-generator')  # fields as a list / a one-shot generator
 
 
 def make_field(kind, opt):
@@ -58,8 +58,10 @@ def build_class(kind, name, opts, flags, form, base=None, post_init=True):
             type(self).post_inits = getattr(type(self), 'post_inits', 0) + 1
         ns['__post_init__'] = __post_init__
     bases = (base,) if base is not None else ()
-    if form == 'make_dataclass':
+    if form.startswith('make_dataclass'):
         fields = [(n, object, ns[n]) for n in names]
+        if form == 'make_dataclass-generator':
+            fields = (f for f in fields)
         extra = {'__post_init__': ns['__post_init__']} if post_init else {}
         if kind == 'optree':
             return optree.dataclasses.make_dataclass(name, fields, bases=bases, ns=extra, namespace=NS, **flags)
@@ -95,7 +97,7 @@ def unregister(cls):
 
 
 def classify(flags, form, detail):
-    if form == 'make_dataclass' and 'Cannot overwrite attribute' in detail and (
+    if form.startswith('make_dataclass') and 'Cannot overwrite attribute' in detail and (
         flags.get('order') or flags.get('unsafe_hash') or flags.get('frozen')):
         return f'{PROP}:make_dataclass:order-unsafe_hash-frozen:TypeError-cannot-overwrite-attribute'
     return None
@@ -396,7 +398,7 @@ def partial_case(ctx, U, P, arg_dsl, kw_dsl, nesting, inner_kind, outer_shape): 
         ctx.violation('merged-with-inner', f'{PROP}:partial-merged', case, f'{p.func!r} vs {inner!r}')
     if len(p.args) != len(pos) or any(x is not y for x, y in zip(p.args, pos)) or set(p.keywords) != set(kws):
         ctx.violation('merged-args', f'{PROP}:partial-merged', case, f'{p.args!r} {p.keywords!r}')
-    for ns in ('', 'ns', 'unk'):
+    for ns in ('', 'ns', 'xnsx'):
         r = outcome_of(lambda: optree.tree_flatten_one_level(p, namespace=ns))
         if r[0] != 'ok':
             ctx.violation('partial-one-level', f'{PROP}:partial-flatten', case, repr(r))
